@@ -2,6 +2,7 @@
 package main
 
 import (
+	"time"
 	"encoding/hex"
 	"unicode/utf8"
 	"context"
@@ -139,11 +140,16 @@ func concurrent(ops []probeOp, n, rounds int, seed int64, groups int) {
 		groups = n
 	}
 	ctxs := make([]context.Context, groups)
+	cancels := make([]context.CancelFunc, groups)
 	for i := range ctxs {
 		cx, cancel := context.WithCancel(context.Background())
 		defer cancel()
+		cancels[i] = cancel
 		ctxs[i] = container.ContextWithContainer(cx, c)
 	}
+	// GV_CANCEL=1: every odd context is cancelled while its goroutines are at work (what they return then is not judged; a data race
+	// or a crash is)
+	cancelOdd := os.Getenv("GV_CANCEL") != ""
 	enc := json.NewEncoder(os.Stdout)
 	enc.SetEscapeHTML(false)
 	type obsv struct {
@@ -213,6 +219,22 @@ func concurrent(ops []probeOp, n, rounds int, seed int64, groups int) {
 						v, err = c.GetTaggedByInContext(ctx, o.Name)
 					case "param":
 						v, err = c.GetParam(o.Name)
+					case "getterctx":
+						m := reflect.ValueOf(c).MethodByName(o.Name)
+						if m.IsValid() {
+							func() {
+								defer func() {
+									if r := recover(); r != nil {
+										err = fmt.Errorf("panic: %v", r)
+									}
+								}()
+								res := m.Call([]reflect.Value{reflect.ValueOf(ctx)})
+								v = res[0].Interface()
+								if len(res) == 2 && !res[1].IsNil() {
+									err = res[1].Interface().(error)
+								}
+							}()
+						}
 					case "getter":
 						m := reflect.ValueOf(c).MethodByName(o.Name)
 						if m.IsValid() {
@@ -246,6 +268,14 @@ func concurrent(ops []probeOp, n, rounds int, seed int64, groups int) {
 		}(g)
 	}
 	close(start)
+	if cancelOdd {
+		for i := 1; i < groups; i += 2 {
+			go func(i int) {
+				time.Sleep(time.Duration(50+137*i%900) * time.Microsecond)
+				cancels[i]()
+			}(i)
+		}
+	}
 	wg.Wait()
 	defer func() { _ = len(keep) }()
 	inv := map[string]int64{}
@@ -254,7 +284,7 @@ func concurrent(ops []probeOp, n, rounds int, seed int64, groups int) {
 	}
 	_ = enc.Encode(map[string]interface{}{"k": "invocations", "v": inv})
 	for g := 0; g < n; g++ {
-		_ = enc.Encode(map[string]interface{}{"k": "goroutine", "g": g, "ctx": g % groups, "obs": results[g]})
+		_ = enc.Encode(map[string]interface{}{"k": "goroutine", "g": g, "ctx": g % groups, "cancelled": cancelOdd && (g%groups)%2 == 1, "obs": results[g]})
 	}
 }
 
